@@ -690,3 +690,36 @@ func NestedAbsent(t *T, v V) bool {
 	}
 	return false
 }
+
+// ShiftStrings returns a copy of v in which every byte of every non-empty string /
+// byte slice is shifted by k: same shape, same lengths, different contents.
+func ShiftStrings(t *T, v V, k byte) V {
+	o := v
+	switch t.K {
+	case KString, KBytes, KNullString:
+		b := []byte(v.S)
+		for i := range b {
+			b[i] += k
+		}
+		o.S = string(b)
+	case KPtr, KSlice, KStruct, KMap:
+		o.E = make([]V, len(v.E))
+		for i, e := range v.E {
+			var et *T
+			switch t.K {
+			case KPtr, KSlice:
+				et = t.Elem
+			case KStruct:
+				et = t.Fields[i].T
+			case KMap:
+				if i%2 == 0 {
+					et = t.Key
+				} else {
+					et = t.Elem
+				}
+			}
+			o.E[i] = ShiftStrings(et, e, k)
+		}
+	}
+	return o
+}
